@@ -47,6 +47,7 @@ int main(int argc, char **argv)
 	setvbuf(stdout, NULL, _IOLBF, 0);
 	while ((line = verif_getline(f))) {
 		addrxlat_map_t *map = addrxlat_map_new();
+		addrxlat_map_t *frozen = NULL;	/* the original of the last successful copy */
 		char *save = NULL, *tok;
 		int first = 1;
 		for (tok = strtok_r(line, " ", &save); tok; tok = strtok_r(NULL, " ", &save)) {
@@ -72,13 +73,16 @@ int main(int argc, char **argv)
 				c = addrxlat_map_copy(map);
 				/* when the first allocation fails the second is never asked */
 				fail_next_calloc = fail_next_malloc = 0;
-				if (c) { addrxlat_map_decref(map); map = c; }
+				/* keep the original: later operations on the copy must not change it */
+				if (c) { if (frozen) addrxlat_map_decref(frozen); frozen = map; map = c; }
 				printf("C%d=", c ? 1 : 0);
 			}
 			show_map(map);
+			if (frozen) { putchar('~'); show_map(frozen); }
 		}
 		putchar('\n');
 		addrxlat_map_decref(map);
+		if (frozen) addrxlat_map_decref(frozen);
 	}
 	fclose(f);
 	return 0;
